@@ -70,12 +70,18 @@ func yamlUnmarshalStream(in []byte) ([]any, error) {
 	parts := yamlRE.Split(string(in), -1)
 	ret := []any{}
 
-	for _, s := range parts {
+	for i, s := range parts {
 		var node yaml.Node
 
 		err := yaml.Unmarshal([]byte(s), &node)
 		if err != nil {
 			return nil, err
+		}
+
+		if i == 0 && len(parts) > 1 && node.Kind == 0 {
+			// A stream that starts with the document start marker (possibly
+			// after comments): there is no document before the first "---".
+			continue
 		}
 
 		obj, err := yamlTranslateNode(&node, 0)
